@@ -4,7 +4,10 @@
 (*                                                                         *)
 (* Arguments: a record a = [g |-> set of option names given on the command *)
 (* line, v |-> [name |-> value]].  Tie probabilities are in twentieths     *)
-(* (0..20 legal), the skew in halves; numbers are integers.                *)
+(* (0..20 legal), the skew in halves; numbers are integers.  a.eps is an    *)
+(* infinitesimal added to a tie probability: [t1 |-> e1, t2 |-> e2] with    *)
+(* e in {-1, 0, 1} standing for -2^-40, 0, +2^-40 (a value a hair beyond a    *)
+(* bound is still beyond it).                                                *)
 (*                                                                         *)
 (* Defs:  Required / Inapplicable / BoundsOK / Accepts : which argument    *)
 (*        sets are accepted (C15); WellFormedFile: what an accepted run    *)
@@ -40,6 +43,8 @@ LQ(a)  == Val(a, "lq", 0)
 UQ(a)  == IF a.mp = "sm" THEN N1(a) ELSE a.v["uq"]      \* every woman has capacity one
 LLQ(a) == Val(a, "llq", 0)
 LT(a)  == Val(a, "lt", 0)
+(* t/20 + e*2^-40 lies in [0, 1] *)
+TieInRange(t, e) == (t > 0 \/ (t = 0 /\ e >= 0)) /\ (t < 20 \/ (t = 20 /\ e <= 0))
 T1(a)  == Val(a, "t1", 0)
 T2(a)  == Val(a, "t2", 0)
 TwoSided(a) == Given(a, "twopl")
@@ -48,7 +53,7 @@ BoundsOK(a) ==
     /\ a.numinst >= 1
     /\ N1(a) >= 1 /\ N2(a) >= 1 /\ (a.mp = "spa" => N3(a) >= 1)
     /\ a.v["pmin"] >= 1 /\ a.v["pmin"] <= a.v["pmax"] /\ a.v["pmax"] <= N2(a)
-    /\ T1(a) >= 0 /\ T1(a) <= 20 /\ T2(a) >= 0 /\ T2(a) <= 20
+    /\ TieInRange(T1(a), a.eps.t1) /\ TieInRange(T2(a), a.eps.t2)
     /\ LQ(a) >= 0 /\ UQ(a) >= N2(a) /\ LQ(a) <= UQ(a)
     /\ a.mp = "spa" => /\ LLQ(a) >= 0 /\ a.v["luq"] >= 1
                        /\ LLQ(a) <= LT(a) /\ LT(a) <= a.v["luq"]
@@ -76,7 +81,7 @@ MechParse(a) ==      \* "accept" | "usage" | "crash"
         ELSE IF a.v["pmax"] < a.v["pmin"] THEN "usage"
         ELSE IF n2d = NoVal THEN "crash"                   \* comparison with no value
         ELSE IF a.v["pmax"] > n2d THEN "usage"
-        ELSE IF t1d < 0 \/ t1d > 20 \/ t2d < 0 \/ t2d > 20 THEN "usage"
+        ELSE IF ~TieInRange(t1d, a.eps.t1) \/ ~TieInRange(t2d, a.eps.t2) THEN "usage"
         ELSE IF lqd < 0 \/ llqd < 0 THEN "usage"
         ELSE IF uqd # NoVal /\ uqd < n2d THEN "usage"
         ELSE IF uqd = NoVal THEN "crash"
